@@ -83,6 +83,12 @@ def splice(x, p):
     inc_line = pre + ('#include ' + name + sel + '\n').encode()
     cart = [b'a=1\n', b'b=2\n']
     cart.insert(pos, inc_line)
+    second = p.get('second')
+    if second:
+        # a second include, without a tab selector, later in the cart
+        cart.append(('#include ' + second + '\n').encode())
+    cartfile = p.get('cart', '/w/r/c.p8')
+    cartdir = os.path.dirname(cartfile)
     content = b'x=1\ny=2' + (b'\n' if final_nl else b'')
     opened = []
     missing = p.get('missing', False)
@@ -92,8 +98,8 @@ def splice(x, p):
 
     def fake_open(path, mode='r', *a, **k):
         opened.append(path)
-        if kind == 'lua':
-            return hx.MemStream(content)
+        if path.endswith('.lua'):
+            return hx.MemStream(content if kind == 'lua' else b'x=1\ny=2\n')
         if kind == 'p8bare':
             # a cart that ends inside its code, with or without a line end
             return hx.MemStream(P8_TEXT[:P8_TEXT.index(b'__gfx__')] if
@@ -104,7 +110,7 @@ def splice(x, p):
     hx.patch(x, builtins, 'open', fake_open)
     err = None
     try:
-        out = list(p8.process_includes(cart, filename='/w/r/c.p8'))
+        out = list(p8.process_includes(cart, filename=cartfile))
     except p8.P8IncludeNotFound:
         err = 'notfound'
         out = None
@@ -125,8 +131,9 @@ def splice(x, p):
     x.check('target found', err is None)
     if err is not None:
         return
-    x.check('the named file is opened', And(
-        len(opened) == 1, opened[0] == '/w/r/' + name))
+    x.check('the named file is opened, relative to the cart', And(
+        len(opened) == (2 if second else 1),
+        opened[0] == cartdir + '/' + name))
     if kind == 'lua':
         inc = [b'x=1\n', b'y=2\n']
     else:
@@ -140,6 +147,12 @@ def splice(x, p):
             inc = []
     exp = [b'a=1\n', b'b=2\n']
     exp[pos:pos] = inc
+    if second:
+        if second.endswith('.lua'):
+            exp += [b'x=1\n', b'y=2\n']
+        else:
+            exp += [b't0=0\n', b'-->8\n', b't1=1\n', b't1b=2\n', b'-->8\n',
+                    b't2=3\n']
     x.out('out', b''.join(out))
     x.check('include line replaced by the target\'s lines; other lines '
             'unchanged and in place', b''.join(out) == b''.join(exp))
@@ -153,6 +166,10 @@ HARNESSES = [
     Harness('splice', splice,
             quick=[dict(Q, kind='lua'), dict(Q, kind='p8'),
                    dict(Q, kind='p8bare'),
+                   dict(Q, kind='p8', second='inc.p8'),
+                   dict(Q, kind='p8', second='other.lua'),
+                   dict(Q, kind='lua', cart=os.path.expanduser(
+                       '~/.lexaloffle/pico-8/carts/sub/c.p8')),
                    dict(Q, kind='lua', npre=1), dict(Q, kind='lua', npre=2),
                    dict(Q, kind='lua', missing=True),
                    dict(Q, kind='lua', missing=True, npre=1)]),
